@@ -1,41 +1,71 @@
 package syntax
 
 import (
+	"fmt"
+
 	"github.com/arr-ai/arrai/rel"
 )
 
-func subset(a, b rel.Value) bool {
-	s := a.(rel.Set)
-	t := b.(rel.Set)
+// setOperands returns both operands of a subset comparison as sets, or an error if either isn't
+// a set.
+func setOperands(a, b rel.Value) (rel.Set, rel.Set, error) {
+	s, is := a.(rel.Set)
+	if !is {
+		return nil, nil, fmt.Errorf("subset comparison lhs not a set: %v", a)
+	}
+	t, is := b.(rel.Set)
+	if !is {
+		return nil, nil, fmt.Errorf("subset comparison rhs not a set: %v", b)
+	}
+	return s, t, nil
+}
+
+func subset(a, b rel.Value) (bool, error) {
+	s, t, err := setOperands(a, b)
+	if err != nil {
+		return false, err
+	}
 	if t.Count() == 0 {
-		return false
+		return false, nil
 	}
 	for e := s.Enumerator(); e.MoveNext(); {
 		if !t.Has(e.Current()) {
-			return false
+			return false, nil
 		}
 	}
-	return s.Count() < t.Count()
+	return s.Count() < t.Count(), nil
 }
 
-func subsetOrEqual(a, b rel.Value) bool {
-	s := a.(rel.Set)
-	t := b.(rel.Set)
+func subsetOrEqual(a, b rel.Value) (bool, error) {
+	s, t, err := setOperands(a, b)
+	if err != nil {
+		return false, err
+	}
 	if t.Count() == 0 {
-		return s.Count() == 0
+		return s.Count() == 0, nil
 	}
 	for e := s.Enumerator(); e.MoveNext(); {
 		if !t.Has(e.Current()) {
-			return false
+			return false, nil
 		}
 	}
-	return s.Count() <= t.Count()
+	return s.Count() <= t.Count(), nil
 }
 
-func subsetOrSuperset(a, b rel.Value) bool {
-	return subset(a, b) || subset(b, a) && !a.Equal(b)
+func subsetOrSuperset(a, b rel.Value) (bool, error) {
+	if _, _, err := setOperands(a, b); err != nil {
+		return false, err
+	}
+	ab, _ := subset(a, b)
+	ba, _ := subset(b, a)
+	return ab || ba && !a.Equal(b), nil
 }
 
-func subsetSupersetOrEqual(a, b rel.Value) bool {
-	return subset(a, b) || subset(b, a) || a.Equal(b)
+func subsetSupersetOrEqual(a, b rel.Value) (bool, error) {
+	if _, _, err := setOperands(a, b); err != nil {
+		return false, err
+	}
+	ab, _ := subset(a, b)
+	ba, _ := subset(b, a)
+	return ab || ba || a.Equal(b), nil
 }
